@@ -162,11 +162,12 @@ theorem C04_param_fail_no_run (ok : Name → Val → Bool) (body : Binding → B
   rw [hx]
   exact ⟨⟨x, (checks_perm_expected s c b hwf h).mem_iff.mp h1, h2, rfl⟩, rfl, rfl⟩
 
-/-- **Unpassed defaults are left unchecked**: a parameter whose default is used
-    contributes no check (its slot holds no passed value). -/
-theorem C04_default_unchecked (sl : Slot) (h : sl.val = none) : slotPair sl = none := by
-  unfold slotPair
-  split <;> simp [h]
+/-- **Unpassed defaults are left unchecked**: when the call binds and a parameter's default
+    is used (its slot holds no passed value), the wrapper performs no check at all for
+    that parameter — whatever its annotation. -/
+theorem C04_default_unchecked (s : Sig) (c : Call) (b : Binding) (hwf : s.WF) (h : pyBind s c = .ok b)
+    (sl : Slot) (hsl : sl ∈ b.slots) (hv : sl.val = none) (v : Val) : (sl.p.name, v) ∉ argChecks s c :=
+  default_slot_unchecked s c b hwf h sl hsl hv v
 
 /-! ### non-vacuity: all five kinds, a keyword colliding with a positional-only name -/
 
